@@ -615,9 +615,44 @@ func (g *jgen) plainPubs(s *jScenario, threads, lo, hi int, topic uint64, start 
 func (g *jgen) tplShutdown(maxSubs int) (*jScenario, string) {
 	s := g.base()
 	topic := uint64(g.r.Intn(3))
-	variant := g.r.Intn(8)
+	variant := g.r.Intn(10)
 	name := ""
 	switch variant {
+	case 8, 9:
+		// Shutdown closes j.done while the loop is inside a call into the replayer - the Replay for a subscriber it
+		// has accepted and not yet registered, or the Put of a message it has taken - whatever that call then
+		// answers (ok, an error, a panic): the loop is held inside the scripted wrapper until shut.closed
+		name = "during-replayer-call"
+		g.plainSubs(s, 1+g.r.Intn(2), topic)
+		early := uint64(len(s.subs))
+		if g.r.Chance(3, 5) {
+			name += "/replay"
+			i := early
+			late := jSubSpec{topics: []uint64{topic}, start: jEvN(34, jAny, early)}
+			if g.r.Chance(1, 4) {
+				late.hasCancel, late.cancel = true, jEv(rng.Pick(g.r, []uint64{41, 18}), rng.Pick(g.r, []uint64{i, jAny}))
+			}
+			s.subs = append(s.subs, late)
+			// the k-th Replay call is the k-th subscription the loop takes: the late one is the last
+			s.repScript = append(jZeros(int(early)), rng.Pick(g.r, []uint64{0, g.werr(), g.werr(), 98}))
+			if g.r.Bool() {
+				g.plainPubs(s, 1, 1, 2, topic, nil)
+			}
+			s.parks = append(s.parks, jPark(41, i, 0, 2500, jAbs(18, jAny, 1)))
+			s.shuts = append(s.shuts, jShutSpec{start: jEv(rng.Pick(g.r, []uint64{41, 41, 31, 3}), i)})
+		} else {
+			name += "/put"
+			// one publisher thread: the k-th Put call is the k-th message
+			g.plainPubs(s, 1, 1, 3, topic, jEvN(34, jAny, early))
+			p := uint64(g.r.Intn(jToks(s)))
+			s.putScript = append(jZeros(int(p)), rng.Pick(g.r, []uint64{0, g.perr(), g.perr(), 98}))
+			s.parks = append(s.parks, jPark(40, p, 0, 2500, jAbs(18, jAny, 1)))
+			s.shuts = append(s.shuts, jShutSpec{start: jEv(rng.Pick(g.r, []uint64{25, 25, 12}), p)})
+			if g.r.Chance(1, 3) {
+				// somebody subscribes while the loop is held there
+				s.subs = append(s.subs, jSubSpec{topics: []uint64{topic}, start: jEv(25, p)})
+			}
+		}
 	case 0:
 		name = "publishers-parked-at-enter"
 		g.plainSubs(s, 1+g.r.Intn(2), topic)
@@ -1193,7 +1228,7 @@ func genJoe(c *Ctx) {
 		}
 		g.emit("joe", "failure-then-late-unsubscription", s)
 	}
-	for n := 0; n < 90*mult; n++ {
+	for n := 0; n < 100*mult; n++ {
 		s, name := g.tplShutdown(maxSubs)
 		g.emit("joe", "shutdown/"+name, s)
 	}
